@@ -332,8 +332,11 @@ class Cell:
             if gv is None:
                 continue
             reads = {n.attr for n in own_nodes(gv.node) if isinstance(n, ast.Attribute) and is_name(n.value, 'self') and isinstance(n.ctx, ast.Load)}
-            writes = {n.attr for m in c.methods.values() if m.name != '__init__' for n in own_nodes(m.node)
-                      if isinstance(n, ast.Attribute) and is_name(n.value, 'self') and isinstance(n.ctx, ast.Store)}
+            # written outside the constructor - through any receiver, anywhere in the engine: a write from outside the class
+            # is for the ownership rule to report, not a reason to overlook the field
+            writes = {n.attr for m in repo.all_functions(('engine',)) for n in own_nodes(m.node)
+                      if isinstance(n, ast.Attribute) and isinstance(n.ctx, ast.Store) and
+                      not (m.name == '__init__' and is_name(n.value, m.params[0] if m.params else 'self'))}
             if reads & writes:
                 cands.append((c, tuple(sorted(reads & writes))))
         if len(cands) != 1:
